@@ -5,6 +5,7 @@ import (
 	"encoding/hex"
 	"encoding/json"
 	"fmt"
+	"go/token"
 	"go/types"
 	"io"
 	"os"
@@ -136,9 +137,7 @@ func fingerprintBlocks(blocks []*ssa.BasicBlock) string {
 	h := sha1.New()
 	for k, b := range blocks {
 		fmt.Fprintf(h, "B%d/%d\n", k, len(b.Succs))
-		for _, i := range b.Instrs {
-			writeInstrSig(h, i)
-		}
+		writeBlockSig(h, b)
 	}
 	return hex.EncodeToString(h.Sum(nil))[:16]
 }
@@ -150,21 +149,81 @@ func fingerprint(f *ssa.Function) string {
 	h := sha1.New()
 	var walk func(g *ssa.Function)
 	walk = func(g *ssa.Function) {
-		fmt.Fprintf(h, "FN %d %s\n", len(g.Params), typeSig(g.Signature, 0))
+		// parameters counted with the receiver, results only: a free function whose
+		// first parameter becomes the receiver keeps its fingerprint
+		fmt.Fprintf(h, "FN %d/%d\n", len(g.Params), g.Signature.Results().Len())
 		for _, b := range g.Blocks {
 			fmt.Fprintf(h, "B%d/%d\n", b.Index, len(b.Succs))
-			for _, i := range b.Instrs {
-				writeInstrSig(h, i)
-			}
+			writeBlockSig(h, b)
 		}
 		for _, an := range g.AnonFuncs {
 			walk(an)
 		}
 	}
 	walk(f)
+	if d := os.Getenv("VERIF_FP_DUMP"); d != "" && strings.HasSuffix(fnName(f), d) {
+		var sb strings.Builder
+		var dump func(g *ssa.Function)
+		dump = func(g *ssa.Function) {
+			for _, b := range g.Blocks {
+				fmt.Fprintf(&sb, "B%d/%d\n", b.Index, len(b.Succs))
+				writeBlockSig(&sb, b)
+			}
+			for _, an := range g.AnonFuncs {
+				dump(an)
+			}
+		}
+		dump(f)
+		fmt.Fprintf(os.Stderr, "FPDUMP %s\n%s", fnName(f), sb.String())
+	}
 	s := hex.EncodeToString(h.Sum(nil))[:16]
 	fpMemo[f] = s
 	return s
+}
+
+// effectFree reports instructions that only compute a value (or spill a
+// parameter into its fresh cell): a run of them may be evaluated in any order
+// that respects their data dependencies, so their order carries no behaviour.
+func effectFree(i ssa.Instruction) bool {
+	switch x := i.(type) {
+	case *ssa.Alloc, *ssa.FieldAddr, *ssa.Field, *ssa.IndexAddr, *ssa.Index, *ssa.BinOp, *ssa.Convert,
+		*ssa.ChangeType, *ssa.ChangeInterface, *ssa.MakeInterface, *ssa.Extract, *ssa.Slice, *ssa.Phi:
+		return true
+	case *ssa.UnOp:
+		return x.Op != token.ARROW
+	case *ssa.Lookup:
+		return true
+	case *ssa.Store:
+		_, isParam := x.Val.(*ssa.Parameter)
+		_, isCell := x.Addr.(*ssa.Alloc)
+		return isParam && isCell
+	}
+	return false
+}
+
+// writeBlockSig writes the signatures of a block's instructions, each maximal
+// run of effect-free instructions in sorted order: swapping two parameters, or
+// the evaluation order of two reads, leaves the fingerprint alone.
+func writeBlockSig(h io.Writer, b *ssa.BasicBlock) {
+	var run []string
+	flush := func() {
+		sort.Strings(run)
+		for _, l := range run {
+			io.WriteString(h, l)
+		}
+		run = run[:0]
+	}
+	for _, i := range b.Instrs {
+		var sb strings.Builder
+		writeInstrSig(&sb, i)
+		if effectFree(i) {
+			run = append(run, sb.String())
+			continue
+		}
+		flush()
+		io.WriteString(h, sb.String())
+	}
+	flush()
 }
 
 func writeInstrSig(h io.Writer, i ssa.Instruction) {
